@@ -159,6 +159,26 @@ def variants():
 VARS = variants()
 
 
+def _shape_of(p):
+    return ([(len(b.predicates), b.group, b.strict, b.loop, b.negated, b.optional) for b in p.blocks],
+            len(p.preconditions), len(p.haltconditions), p.singleton)
+
+
+def direct_pattern_alias():
+    """BoboPattern built from the caller's own lists: changing those lists afterwards must not change the pattern"""
+    from bobocep.cep.phenom.pattern.pattern import BoboPattern, BoboPatternBlock
+    from bobocep.cep.phenom.pattern.predicate import BoboPredicateCall
+    mk = lambda **kw: BoboPatternBlock(group="g", predicates=[BoboPredicateCall(lambda e, h: True)], strict=False,   # noqa
+                                       loop=False, negated=False, optional=kw.get("optional", False))
+    blocks, pre, halt = [mk(), mk()], [BoboPredicateCall(lambda e, h: True)], []
+    p = BoboPattern(name="p", blocks=blocks, preconditions=pre, haltconditions=halt)
+    was = _shape_of(p)
+    blocks.append(mk(optional=True))
+    pre.clear()
+    halt.append(BoboPredicateCall(lambda e, h: True))
+    return None if _shape_of(p) == was else "after the caller changed its own lists the pattern has %d blocks, %d preconditions, %d "         "haltconditions (was %d, %d, %d)" % (len(p.blocks), len(p.preconditions), len(p.haltconditions), len(was[0]), was[1], was[2])
+
+
 def real_build(name, single, seq, early=False):
     """early: generate() is also called after every builder call (a builder reused for several patterns); the result
     reported is that of the last generate(), which must not depend on the earlier ones"""
@@ -166,6 +186,7 @@ def real_build(name, single, seq, early=False):
     from bobocep.cep.phenom.pattern.pattern import BoboPatternError, BoboPatternBlockError
     from bobocep.cep.phenom.pattern.predicate import BoboPredicate, BoboPredicateCall
     pred = lambda e, h: True   # noqa
+    kept = []
     try:
         b = BoboPatternBuilder(name=name, singleton=single)
     except BoboPatternError:
@@ -184,11 +205,16 @@ def real_build(name, single, seq, early=False):
                 getattr(b, m)(predicate=pred, group=PL.gname(kw.pop("group")), **kw)
             if early:
                 try:
-                    b.generate()
+                    q = b.generate()
+                    kept.append((q, _shape_of(q)))
                 except BoboPatternError:
                     pass
     except BoboPatternBlockError:
         return [1]
+    # a pattern that was accepted stays what it was, whatever is done with the builder afterwards
+    for q, was in kept:
+        if _shape_of(q) != was:
+            return [7, len(was[0]), len(q.blocks)]
     try:
         p = b.generate()
     except BoboPatternError:
@@ -354,6 +380,10 @@ def run(ctx, res):
                                      what="the same builder calls give %s, and %s when generate() is also called after each of them"
                                           % (out, out2), case=dict(name=name, single=single, seq=seq, early=True)))
     res.extra["builder_sequences_with_intermediate_generate"] = n_early
+    bad = direct_pattern_alias()
+    res.note_case(("pattern-alias",), True)
+    if bad:
+        res.failures.append(dict(signature="accepted-pattern-changed-afterwards", what=bad, case=dict(alias=True)))
     mism, errs = common.coq_run_cases("C19b", IMPORTS, "run_C19_build", "(nat * bool * list (bop ev))", coq_cases,
                                       shard=400, preamble=PREAMBLE)
     res.errors += errs
@@ -429,6 +459,10 @@ def replay(obj):
     case = obj.get("case") or {}
     sig = obj.get("signature", "")
     print(obj.get("what"))
+    if case.get("alias"):
+        bad = direct_pattern_alias()
+        print(bad or "the pattern kept its own copies")
+        return 1 if bad else 0
     if "seq" in case and case.get("early"):
         seq = [(m, kw) for m, kw in case["seq"]]
         a, b = real_build(case["name"], case["single"], seq), real_build(case["name"], case["single"], seq, early=True)
